@@ -110,6 +110,35 @@ func blockedHandlers() string {
 	return ""
 }
 
+// insideHandler returns the innermost non-runtime frames of a goroutine that has broker.(*Conn).onReceive on its stack.
+func insideHandler() string {
+	buf := make([]byte, 8<<20)
+	buf = buf[:runtime.Stack(buf, true)]
+	for _, g := range strings.Split(string(buf), "\n\n") {
+		if !strings.Contains(g, "internal/broker.(*Conn).onReceive") {
+			continue
+		}
+		var frames []string
+		for _, l := range strings.Split(g, "\n")[1:] {
+			if l == "" || l[0] == '\t' || l[0] == ' ' || strings.HasPrefix(l, "created by") {
+				continue
+			}
+			if i := strings.LastIndex(l, "("); i > 0 {
+				l = l[:i]
+			}
+			if strings.HasPrefix(l, "runtime.") || strings.HasPrefix(l, "sync.") || strings.HasPrefix(l, "internal/") {
+				continue
+			}
+			frames = append(frames, l)
+			if len(frames) == 3 {
+				break
+			}
+		}
+		return strings.Join(frames, " < ")
+	}
+	return ""
+}
+
 func (c *childState) canaryRound() string {
 	c.seq++
 	p := fmt.Sprintf("canary-%d", c.seq)
@@ -153,7 +182,13 @@ func handle(in []byte) string {
 		case <-sv.Closed():
 			res = "closed"
 		case <-time.After(120 * time.Second):
-			res = "connection-not-closed"
+			// a watchdog alone decides nothing: it is a finding only if some connection goroutine is still INSIDE the handling
+			// of a packet two minutes after an input of at most 64 KiB ended (spinning or blocked) - otherwise inconclusive
+			if fr := insideHandler(); fr != "" {
+				res = "connection-not-closed: still handling a packet: " + fr
+			} else {
+				res = "connection-watchdog"
+			}
 		}
 		cl.Close()
 	case 'S', 'A': // a subscriber of the canary's channel behind the real listener.Conn whose socket stops accepting writes ('S') or is cut ('A')
@@ -604,7 +639,9 @@ func TestC09(t *testing.T) {
 		case strings.Contains(o.Result, "canary-failed"):
 			rec.Violation(i, side+"/canary-failed", fmt.Sprintf("after %s input (%s) the canary client is no longer served: %s", side, in.kind, o.Result), w)
 		case strings.HasPrefix(o.Result, "connection-not-closed"):
-			rec.Violation(i, side+"/connection-not-closed", fmt.Sprintf("the broker did not close the connection after its input ended (%s)", in.kind), w)
+			rec.Violation(i, side+"/connection-not-closed", fmt.Sprintf("the broker did not close the connection after its input ended (%s): %s", in.kind, o.Result), w)
+		case strings.HasPrefix(o.Result, "connection-watchdog"):
+			rec.Inconclusive("connection close watchdog after " + in.kind)
 		case o.Result == "":
 			rec.Inconclusive("no result for input " + in.kind)
 		default:
